@@ -146,6 +146,10 @@ func execC18(t *testing.T) func(Case) evid.Result {
 			r.Classes = append(r.Classes, "harness-problem")
 			r.Counts["harness-problem: "+res.harnessErr] = 1
 		}
+		if res.bubbleErr != "" {
+			r.Err = fmt.Errorf("routers do not shut down: %s", res.bubbleErr)
+			return
+		}
 		if res.advertErr != "" {
 			r.Err = fmt.Errorf("advertisement with infinite cost: %s", res.advertErr)
 			return
@@ -159,6 +163,13 @@ func execC18(t *testing.T) func(Case) evid.Result {
 				return
 			}
 			tables = append(tables, nh)
+			if err := exchangeBound(c, sp); err != nil {
+				r.Err = err
+				return
+			}
+			if sp.forest {
+				r.Classes = append(r.Classes, "exchange-bound-checked")
+			}
 			if prev, ok := byTopo[sp.topoKey]; ok {
 				r.Classes = append(r.Classes, "same-topology-twice")
 				if d := diffNextHops(prev, nh); d != "" {
@@ -193,6 +204,31 @@ func execC18(t *testing.T) func(Case) evid.Result {
 		}
 		return
 	}
+}
+
+// exchangeBound: the stated bound on the number of exchanges. While the topology is loop-free
+// (no cycle in the union of all topologies of the step) poison reverse excludes every
+// two-router bounce, so each (router, destination) entry is created or removed at most
+// once per topology event: no router's advertisement changes more than (n-1) times per
+// event (+1 for the first advertisement seen). Counting to infinity on a line or a star
+// needs about 8 changes per router for one loss. On topologies with cycles the bound is
+// the settling time itself (counting to 16 is legitimate there).
+func exchangeBound(c Case, sp settlePoint) error {
+	if !sp.forest {
+		return nil
+	}
+	k := sp.topoEvs
+	if k < 1 {
+		k = 1
+	}
+	limit := (c.N-1)*k + 1
+	for r, x := range sp.advChg {
+		if x > limit {
+			return fmt.Errorf("step %d (t=%v, loop-free topology %s): the advertisement of router %s changed %d times after %d topology event(s); with poison reverse a loop-free network needs at most (n-1) changes per event +1 = %d (count-to-infinity between neighbours?)",
+				sp.step, sp.at, sp.topoKey, routerNames[r], x, sp.topoEvs, limit)
+		}
+	}
+	return nil
 }
 
 func TestC18Converge(t *testing.T) {
@@ -231,6 +267,10 @@ func execC19(t *testing.T) func(Case) evid.Result {
 		if res.harnessErr != "" {
 			r.Classes = append(r.Classes, "harness-problem")
 			r.Counts["harness-problem: "+res.harnessErr] = 1
+		}
+		if res.bubbleErr != "" {
+			r.Err = fmt.Errorf("routers do not shut down: %s", res.bubbleErr)
+			return
 		}
 		for _, sp := range res.points {
 			if err := judge19(c, sp); err != nil {
